@@ -69,6 +69,8 @@ def sa_bases(R, legacy):
         ("join-blog-entity", False, lambda: start().join(Blog)),
         # Post.owner (-> City) shares its attribute name with Blog.owner (-> Person), which the path2 filter navigates
         ("join-owner", False, lambda: start().join(Post.owner)),
+        # two-argument join onto an ALIAS of the related entity: the un-aliased table is not joined yet
+        ("join-aliased-blog", False, lambda: start().join(sa.orm.aliased(Blog), Post.blog)),
         ("outerjoin-owner-where", False, lambda: getattr(start().outerjoin(Post.owner), w)(Post.score >= 0)),
         ("outerjoin-blog", False, lambda: start().outerjoin(Post.blog)),
         ("order-by", True, lambda: start().order_by(Post.title.desc(), Post.id)),
@@ -111,26 +113,34 @@ def exec_sa(q, legacy, core=False):
 
 
 def from_tables(sql):
-    """table names in FROM / JOIN position of the OUTER query (subqueries skipped), via the independent lexer"""
+    """correlation names in FROM / JOIN position of the OUTER query (subqueries skipped), via the independent lexer;
+    `tbl AS alias` counts as `alias` (an aliased join is a different row source than the plain table)"""
     toks = sqllex.lex(sql)
     out = []
     depth = 0
-    prev = None
     in_from = False
-    for t in toks:
+    expect_name = False
+    i = 0
+    while i < len(toks):
+        t = toks[i]
         if t.kind == "op" and t.value == "(":
             depth += 1
         elif t.kind == "op" and t.value == ")":
             depth -= 1
-        if depth == 0 and t.kind == "word" and t.value in ("FROM", "JOIN"):
-            in_from = True
-            prev = t.value
-            continue
-        if depth == 0 and in_from and t.kind in ("word", "qid") and prev in ("FROM", "JOIN", ","):
-            out.append(t.value.lower() if t.kind == "word" else t.value)
-        if depth == 0 and t.kind == "word" and t.value in ("WHERE", "ORDER", "GROUP"):
+        elif depth == 0 and t.kind == "word" and t.value in ("FROM", "JOIN"):
+            in_from, expect_name = True, True
+        elif depth == 0 and t.kind == "word" and t.value in ("WHERE", "ORDER", "GROUP", "HAVING", "LIMIT"):
             in_from = False
-        prev = t.value if t.kind in ("word", "op") else None
+        elif depth == 0 and in_from and t.kind == "op" and t.value == ",":
+            expect_name = True
+        elif depth == 0 and in_from and expect_name and t.kind in ("word", "qid"):
+            name = t.value.lower() if t.kind == "word" else t.value
+            if i + 2 < len(toks) and toks[i + 1].kind == "word" and toks[i + 1].value == "AS" and toks[i + 2].kind in ("word", "qid"):
+                name = toks[i + 2].value.lower() if toks[i + 2].kind == "word" else toks[i + 2].value
+                i += 2
+            out.append(name)
+            expect_name = False
+        i += 1
     return out
 
 
@@ -308,7 +318,7 @@ def run(ctx):
     units = [["product"]] + [chosen[i::40] for i in range(40) if chosen[i::40]]
     ctx.pmap(_unit, units)
     ctx.layer("queries", instances=len(chosen) + 1, of=len(inst) + 1, filters=len(FILTERS), exhaustive=not ctx.quick,
-              bases={"sa-select": 12, "sa-query": 12, "sa-core": 3, "django": 10})
+              bases={"sa-select": 13, "sa-query": 13, "sa-core": 3, "django": 10})
     n = registry_layer(ctx)
     ctx.layer("registry", histories=n, names=EXT_NAMES, exhaustive=not ctx.quick)
 
